@@ -181,6 +181,32 @@ claim("C19",
       "parsing of arbitrary equations; the print-parse round trip",
       "DESIGN.md section 6 C19")
 
+claim("C08",
+      "The only nondeterminism sources in the translation unit are the two now() calls of engineexport_run, whose values "
+      "flow only into the slice-ending break condition (def-use); every mt19937 is constructed from the seed parameter, "
+      "the member generator is assigned only by Init and receives the export's seed; on every success path both "
+      "initialize exports assign the space type, a fresh algorithm object and the liveness flag; every field read by "
+      "Iterate- / getter-reachable code is written by Init-reachable code (or earlier in the same iteration) for all six "
+      "engines; the three driver exports touch the simulation only through Iterate(); Python draws randomness only for "
+      "a missing seed, passes script.rng_seed and stores the script copy it used; the Euler engines reach no draw.",
+      "static analysis: call / type inventory over the Clang AST, def-use of clock values, effect inventories closed "
+      "over the resolved call graph (virtual calls per concrete class), must-fact definite assignment",
+      "bit-identity across compilers / libm (same binary assumed); sharing of the global simulation (C10.ISOLATION)",
+      "DESIGN.md section 6 C08")
+
+claim("C09",
+      "The getter exports fill their buffers as [sample][species][cell] (IDX layouts) and the Python buffers have the "
+      "matching extents; state and time are pushed together on every path and only by Sample(), under the "
+      "once-per-iteration flag that every Iterate re-arms first; in all six Iterate the clock advances after the "
+      "state-changing step, SamplingStep follows the clock, CheckTMax follows SamplingStep, and every path that "
+      "performed a step passes both; Init ends with SamplingStep; policy strings -> codes -> switch labels -> handlers "
+      "agree across RDScript, both initialize exports and both SamplingStep; the time-point / interval / t_max "
+      "handlers have the documented conditions; default t_max is the last requested time.",
+      "static analysis: index-layout inference, path-fact engine (pairing, ordering on all paths), string / code / "
+      "handler table agreement across the language boundary",
+      "which step covers which requested time, interval boundaries, number of steps performed (value-level)",
+      "DESIGN.md section 6 C09")
+
 NOT_YET = {}
 
 def main():
